@@ -74,6 +74,13 @@ func judgeLimitCase(c limitCase, rec *hx.Rec) string {
 	if err := sim.SpawnWarrior(0, 0); err != nil {
 		return "Spawn: " + err.Error()
 	}
+	if c.FarPick%4 == 3 {
+		// the limits are part of the configuration and must survive a reset
+		sim.Reset()
+		if err := sim.SpawnWarrior(0, 0); err != nil {
+			return "Spawn after Reset: " + err.Error()
+		}
+	}
 	model := append([]ref.Instr(nil), c.S.Core...)
 	wlim, rlim := cfg.W/2, cfg.R/2
 	far := rlim
